@@ -354,7 +354,7 @@ func calcStatusCode(cfg *ResponseConfig, a *asset, segmentPart string, nowMS int
 		// Next we need to find the number after wrap
 		// For that we need to find the first segment nr after wrapStart
 		// Use nowMS = cycleStart to look up the latest segment published at that time
-		firstNr := 0
+		firstNr := cfg.getStartNr()
 		if nrWraps > 0 {
 			lastNr := findLastSegNr(cfg, a, wrapStartS*1000, segMeta.rep)
 			firstNr = lastNr + 1
